@@ -79,7 +79,7 @@ Theorem C16_origrev_stable : forall e snap q res it e1 q1 res1 now t q2 t' q',
   ri_del it = false -> keyed t ->
   process_single e snap false q res (ri_obj it) (ri_rev it) (ri_orig it) (ri_del it) = (e1, q1, res1) ->
   exists r, res1 = res ++ [r] /\ r_orig r = ri_orig it /\ o_pk (r_obj r) = ri_pk it /\
-    (commit_one true now (t, q2) r = (t', q') ->
+    (commit_one true true now (t, q2) r = (t', q') ->
      orig_of q' (ri_pk it) = orig_of q2 (ri_pk it) \/ orig_of q' (ri_pk it) = Some (ri_orig it)).
 Proof. exact origrev_stable. Qed.
 Print Assumptions C16_origrev_stable.
